@@ -21,12 +21,16 @@ K = 1e4
 
 
 @st.composite
-def _case(draw, max_n, decades=1.0):
+def _case(draw, max_n, decades=1.0, anchored=False):
     cvx = draw(zoo.convex3d(max_n=max_n))
     pl = draw(zoo.placement(max_offset=10.0, scale_decades=decades))
     n = 80
-    return {"cvx": cvx, "place": pl, "perm": draw(zoo.noise(n)), "perm2": draw(zoo.noise(n)),
-            "int_t": [draw(st.integers(-30, 30)) for _ in range(3)]}
+    out = {"cvx": cvx, "place": pl, "perm": draw(zoo.noise(n)), "perm2": draw(zoo.noise(n)),
+           "int_t": [draw(st.integers(-30, 30)) for _ in range(3)]}
+    if anchored:
+        out["anchor"] = draw(st.sampled_from(zoo.ANCHORS))
+        out["anchor_k"] = draw(st.integers(0, 40))
+    return out
 
 
 def _measures(rec, V, tag, sig0):
@@ -92,11 +96,14 @@ def _convex(case, rec):
     c = zoo.build_convex(case["cvx"])
     V0 = c["verts"]
     pl = case["place"]
-    exact = bool(c["lattice"] and zoo.is_identity_rotation(pl) and pl["logs"] == 0.0)
+    exact = bool(c["lattice"] and zoo.is_identity_rotation(pl) and pl["logs"] == 0.0 and not case.get("anchor"))
     if exact:
         V = V0 + np.asarray(case["int_t"], dtype=float) * (1 if pl["tmag"] > 0 else 0)
     else:
         V, R, t, s = zoo.apply_placement(pl, V0)
+    if case.get("anchor"):
+        V = zoo.anchored(case["anchor"], V, geom.convex_facets(V)[0], case["anchor_k"])
+        rec.label("anchor:" + case["anchor"])
     n = len(V)
     p1 = perm_from_noise(case["perm"], n)
     V1 = V[p1]
@@ -111,6 +118,8 @@ def _convex(case, rec):
               "aspect>=20" if c["aspect"] >= 20 else None, "exact" if exact else None,
               "nontriangular" if r1["maxdeg"] > 3 else "alltriangles", "rotated" if not zoo.is_identity_rotation(pl) else None)
     rec.nontrivial = n >= 5 and (r1["maxdeg"] > 3 or off >= 1 or c["aspect"] >= 20)
+    if case.get("anchor"):
+        rec.nontrivial = n >= 5 and float(np.linalg.norm(r1["m"]["centroid"] - V.mean(axis=0))) > 1e-3 * D
     # order independence (metamorphic): same set, another order
     p2 = perm_from_noise(case["perm2"], n)
     if p2 == p1:
@@ -144,6 +153,9 @@ def clauses():
                rule="same with up to 60 vertices", floors={}),
         Clause("convex_measures_extreme_scale", _case(20, 8.0), _convex, quick=1200, thorough=8000,
                rule="same with uniform scale 10^U(-8,8) (tolerances are scale-free)", floors={}),
+        Clause("convex_measures_anchored_at_origin", _case(24, 1.0, True), _convex, quick=1200, thorough=8000,
+               rule="same solids translated so that their centroid / vertex mean / one vertex / bounding-box centre is the origin",
+               floors={"anchor:centroid": 0.2}),
     ]
 
 
